@@ -2,5 +2,7 @@ import CvModel.Scalar
 import CvModel.Value
 import CvModel.Grid
 import CvModel.Engine
+import CvModel.Abf
+import CvModel.Module
 import CvModel.MemStream
 import CvModel.FileSys
